@@ -183,6 +183,7 @@ func (d Date) MarshalBinary() ([]byte, error) {
 
 // UnmarshalBinary sets date from passed data.
 // It can return wrapped ErrUnsupportedVersion or ErrInvalidLength.
+// It also returns wrapped ErrInvalidValue if data does not represent existing date.
 func (d *Date) UnmarshalBinary(data []byte) error {
 	l := len(data)
 	if l == 0 {
@@ -193,6 +194,11 @@ func (d *Date) UnmarshalBinary(data []byte) error {
 	}
 	if l != 7 { // version(1)+year(4)+month(1)+day(1)
 		return fmt.Errorf("date.Date.UnmarshalBinary: %w: expected 7 instead of %d", ErrInvalidLength, l)
+	}
+	year, month, day := int(int32(data[1])<<24|int32(data[2])<<16|int32(data[3])<<8|int32(data[4])), Month(data[5]), int(data[6])
+	if v := New(year, month, day); v.Year() != year || v.Month() != month || v.Day() != day {
+		// not existing day (e.g. month 13 or day 32), receiver stays untouched
+		return fmt.Errorf("date.Date.UnmarshalBinary: %w: year %d, month %d, day %d is not existing date", ErrInvalidValue, year, data[5], day)
 	}
 	d.year = (int32(data[1])<<24 | int32(data[2])<<16 | int32(data[3])<<8 | int32(data[4])) - 1
 	d.month = data[5] - 1
